@@ -35,6 +35,11 @@ pub enum Scenario {
     LongHold { variant: u8, threads: u8, hold_ms: u32 },
     /// the static_* macros: clones alias one static, distinct call sites are distinct objects
     Statics,
+    /// compile-time half of "regardless of which features the calling crate declares": a tiny library crate that calls
+    /// to_dyn! on a Ptr, an RcRefCell and a PtrRwLock Reference is compiled by rustc against the live rrtk (built with std),
+    /// as a `#![no_std]` or ordinary crate, with or without cfg(feature = "alloc"/"std") set for it; it must compile whenever
+    /// its control twin (same crate without the to_dyn! calls) does
+    CallerCompiles { no_std: bool, features: bool },
 }
 
 fn variant(i: u8) -> Variant {
@@ -207,7 +212,77 @@ pub fn check(s: &Scenario) -> CheckResult {
             statics()?;
             Ok(CaseInfo::new(true, 17).class("static_* macros"))
         }
+        Scenario::CallerCompiles { no_std, features } => caller_compiles(*no_std, *features),
     }
+}
+
+fn caller_source(no_std: bool, with_to_dyn: bool) -> String {
+    let head = if no_std { "#![no_std]\n#![allow(unused, dead_code)]\nextern crate std as host;\n" } else { "#![allow(unused, dead_code)]\nextern crate std as host;\n" };
+    let conv = |r: &str| if with_to_dyn { format!("rrtk::to_dyn!(Bump, {})", r) } else { format!("{{ let _ = {}; unimplemented!() }}", r) };
+    format!(
+        r#"{head}use rrtk::*;
+pub trait Bump {{
+    fn bump(&mut self);
+    fn value(&self) -> u32;
+}}
+pub struct Counter(pub u32);
+impl Bump for Counter {{
+    fn bump(&mut self) {{
+        self.0 += 1;
+    }}
+    fn value(&self) -> u32 {{
+        self.0
+    }}
+}}
+pub fn from_ptr(p: *mut Counter) -> Reference<dyn Bump> {{
+    let concrete = unsafe {{ Reference::from_ptr(p) }};
+    {ptr}
+}}
+pub fn from_rc(x: Counter) -> Reference<dyn Bump> {{
+    let concrete = rc_ref_cell_reference(x);
+    {rc}
+}}
+pub fn from_rw_lock(p: *const host::sync::RwLock<Counter>) -> Reference<dyn Bump> {{
+    let concrete = unsafe {{ Reference::from_ptr_rw_lock(p) }};
+    {rw}
+}}
+"#,
+        head = head,
+        ptr = conv("concrete"),
+        rc = conv("concrete"),
+        rw = conv("concrete"),
+    )
+}
+fn caller_compiles(no_std: bool, features: bool) -> CheckResult {
+    let (rmeta, deps) = match crate::c16::rrtk_rmeta() {
+        Ok(x) => x,
+        // the same cargo invocation underlies C16's probes; if it is unavailable nothing can be said here
+        Err(_) => return Ok(CaseInfo::new(false, 0).class("caller probe: rrtk metadata unavailable (skipped)")),
+    };
+    let dir = verif_root().join("work").join("probes").join("callers");
+    let _ = std::fs::create_dir_all(dir.join("out"));
+    let compile = |with_to_dyn: bool| -> (bool, String) {
+        let name = format!("caller_{}_{}_{}", if no_std { "nostd" } else { "std" }, if features { "feat" } else { "nofeat" }, if with_to_dyn { "probe" } else { "control" });
+        let file = dir.join(format!("{}.rs", name));
+        let _ = std::fs::write(&file, caller_source(no_std, with_to_dyn));
+        let mut cmd = std::process::Command::new("rustc");
+        cmd.args(["--edition=2021", "--crate-type=lib", "--emit=metadata", "--error-format=short", "--cap-lints=allow"]);
+        if features {
+            cmd.args(["--cfg", "feature=\"alloc\"", "--cfg", "feature=\"std\""]);
+        }
+        cmd.arg("--crate-name").arg(&name).arg("--out-dir").arg(dir.join("out")).arg("--extern").arg(format!("rrtk={}", rmeta)).arg("-L").arg(format!("dependency={}", deps.display())).arg(&file);
+        match cmd.env_remove("RUSTFLAGS").output() {
+            Ok(o) => (o.status.success(), String::from_utf8_lossy(&o.stderr).lines().filter(|l| l.contains("error")).take(8).collect::<Vec<_>>().join(" | ")),
+            Err(e) => (false, format!("cannot run rustc: {}", e)),
+        }
+    };
+    let (control_ok, _) = compile(false);
+    if !control_ok {
+        return Ok(CaseInfo::new(false, 0).class("caller probe: control twin does not compile (skipped)"));
+    }
+    let (ok, diag) = compile(true);
+    ensure!(ok, format!("C17/to_dyn/caller-does-not-compile/{}", if no_std { "no_std" } else { "std" }), "a {} calling crate {} cfg(feature = \"alloc\"/\"std\") cannot use to_dyn! on Ptr / RcRefCell / PtrRwLock References although rrtk itself is built with std (its twin without the to_dyn! calls compiles): {}", if no_std { "#![no_std]" } else { "std" }, if features { "with" } else { "without" }, diag);
+    Ok(CaseInfo::new(true, hash_of(&("caller", no_std, features))).class("calling crate compiles to_dyn!"))
 }
 
 fn sop() -> BoxedStrategy<SOp> {
@@ -220,7 +295,7 @@ fn seq() -> BoxedStrategy<Seq> {
 pub struct C17;
 impl Property for C17 {
     const ID: &'static str = "C17";
-    const RULE: &'static str = "random sequences of 0..12 operations {clone(k), to_dyn(k), borrow-read(k), borrow_mut-write(k, v), drop(k)} over a growing set of handles for each of the six Reference variants (raw-pointer variants backed by heap objects the harness frees afterwards; payload counts its drops), interpreted by one shared interpreter that is compiled into three crates: the harness (declares features alloc, std), a downstream crate built with `--features std` and the same downstream crate built with no features; plus 2..8 threads x 1e3..1e5 read-yield-write increments under borrow_mut() of per-thread References over one shared Arc<Mutex>, Arc<RwLock>, static Mutex or static RwLock; plus the static_* macros. Oracle: one-shared-cell model (every write is read back through every live handle), drop exactly once after the last counted handle and never while a handle lives, to_dyn! never panics for the variants it lists in any of the three crates and the result aliases the object, final counter == threads x increments. Non-trivial = a sequence with >= 2 handles of which >= 1 came from to_dyn! and a write through one handle read through another (or a thread / statics case); distinct = (crate, variant, op sequence).";
+    const RULE: &'static str = "random sequences of 0..12 operations {clone(k), to_dyn(k), borrow-read(k), borrow_mut-write(k, v), drop(k)} over a growing set of handles for each of the six Reference variants (raw-pointer variants backed by heap objects the harness frees afterwards; payload counts its drops), interpreted by one shared interpreter that is compiled into three crates: the harness (declares features alloc, std), a downstream crate built with `--features std` and the same downstream crate built with no features; plus 2..8 threads x 1e3..1e5 read-yield-write increments under borrow_mut() of per-thread References over one shared Arc<Mutex>, Arc<RwLock>, static Mutex or static RwLock; plus the static_* macros; plus four library crates ({#![no_std], std} x {with, without cfg(feature = alloc/std)}) that call to_dyn! on Ptr / RcRefCell / PtrRwLock References and must compile against the std-built rrtk whenever their twin without the calls does. Oracle: one-shared-cell model (every write is read back through every live handle), drop exactly once after the last counted handle and never while a handle lives, to_dyn! never panics for the variants it lists in any of the three crates and the result aliases the object, final counter == threads x increments. Non-trivial = a sequence with >= 2 handles of which >= 1 came from to_dyn! and a write through one handle read through another (or a thread / statics case); distinct = (crate, variant, op sequence).";
     type Scenario = Scenario;
     fn strategy(tier: Tier) -> BoxedStrategy<Scenario> {
         let inc = tier.pick(20_000u32, 100_000u32);
@@ -237,6 +312,11 @@ impl Property for C17 {
     fn exhaustive(tier: Tier, sink: &mut dyn FnMut(Scenario)) -> Vec<String> {
         let _tier_hold: u32 = tier.pick(1_300, 4_000);
         sink(Scenario::Statics);
+        for no_std in [false, true] {
+            for features in [false, true] {
+                sink(Scenario::CallerCompiles { no_std, features });
+            }
+        }
         // every variant x every pair of ops (length-2 prefixes) followed by a fixed tail, in all three crates
         let alphabet = [SOp::Clone(0), SOp::ToDyn(0), SOp::Read(1), SOp::Write(1, 5), SOp::Drop(0), SOp::ToDyn(1)];
         let mut all = Vec::new();
